@@ -1062,25 +1062,54 @@ Proof.
   - cbn [fst]. apply commit_same; auto. rewrite B. simpl; auto.
 Qed.
 
+Lemma rollback_inv c st s p' mk : wf c -> CInv c st s -> Inv c st p' ->
+  (forall k b, In b (blocks_of (cp_pool s) k) -> In b (blocks_of p' k)) ->
+  (forall k, k <> mk -> blocks_of p' k = blocks_of (cp_pool s) k) ->
+  CInv c st {| cp_pool := release c p' mk;
+               cp_rev := fold_left (fun ri b => rev_remove ri (b_ip b) (b_start b)) (blocks_of p' mk) (cp_rev s);
+               cp_sess := cp_sess s |}.
+Proof.
+  intros W (I & R & [S C]) I' Hgrow Hother. unfold CInv; cbn [cp_pool cp_rev].
+  split; [apply release_inv; auto|].
+  destruct (rev_remove_fold (blocks_of p' mk) (cp_rev s) R) as [R' M]. split; [exact R'|].
+  constructor.
+  - intros m Hm. apply M in Hm. destruct Hm as [Hm NK]. rewrite blocks_of_release.
+    destruct (N.eqb_spec (m_sub m) mk) as [E|E].
+    + exfalso. pose proof (S _ Hm) as Own. rewrite E in Own. apply (NK _ (Hgrow _ _ Own)). reflexivity.
+    + rewrite Hother by auto. auto.
+  - intros k' b' Hb'. rewrite blocks_of_release in Hb'. destruct (N.eqb_spec k' mk) as [E|NE]; [contradiction|].
+    pose proof Hb' as Hb2. rewrite Hother in Hb' by auto.
+    destruct (C _ _ Hb') as (m & Hm & Ms & Mb). exists m. split; [|auto]. apply M. split; [exact Hm|].
+    intros b0 Hb0 K. unfold rkey in K. rewrite Mb in K. inversion K. apply NE. eapply (i_excl _ _ _ I'); eauto.
+Qed.
+
 Lemma cstep_inv c st s o : wf c -> wfst c st -> CInv c st s -> CInv c st (fst (cstep repaired c s o)).
 Proof.
   intros W WS CI. pose proof CI as (I & R & S).
-  destruct o as [sid k dp obs|sid k mk mb obs|sid k|sid mk mb|mk mb]; cbn [cstep].
+  destruct o as [sid k dp obs|sid k mk mb dp obs|sid k dl|sid mk mb bulk|mk mb|]; cbn [cstep].
   - destruct (existsb (N.eqb sid) (cp_sess s)); [exact CI|]. apply pba_activate_inv; auto.
   - destruct (existsb (N.eqb sid) (cp_sess s)); [exact CI|].
-    unfold restore; cbn [repaired v_validate].
+    unfold restore; cbn [repaired v_validate v_rollback].
     destruct (restore_repaired c (cp_pool s) mk mb true) as [p'|] eqn:H; [|apply pba_activate_inv; auto].
-    cbn [fst]. eapply restore_commit_inv; eauto.
+    destruct dp; cbn [fst]; [eapply restore_commit_inv; eauto|].
+    pose proof (restore_repaired_inv _ _ _ _ _ _ _ W WS I H) as I'.
+    apply rollback_inv; auto.
+    + destruct (restore_repaired_shape _ _ _ _ _ _ W I H) as [[-> Hb]|(addrs' & ->)]; [auto|].
+      intros k0 b0 H0. rewrite blocks_of_add. destruct (N.eqb_spec k0 mk) as [->|]; [apply in_or_app|]; auto.
+    + destruct (restore_repaired_shape _ _ _ _ _ _ W I H) as [[-> Hb]|(addrs' & ->)]; [auto|].
+      intros k0 NE. rewrite blocks_of_add. destruct (N.eqb_spec k0 mk); [contradiction|reflexivity].
   - destruct (negb (existsb (N.eqb sid) (cp_sess s))); [exact CI|].
     destruct (blocks_of (cp_pool s) k) as [|b0 r0] eqn:B; cbn [fst]; [exact CI|].
     unfold CInv; cbn [cp_pool cp_rev]. split; [apply release_inv; auto|].
     rewrite <- B. apply release_comp_inv with (st := st); auto.
-  - unfold restore; cbn [repaired v_validate].
+  - destruct (negb (bulk =? 0)); [exact CI|].
+    unfold restore; cbn [repaired v_validate].
     destruct (restore_repaired c (cp_pool s) mk mb true) as [p'|] eqn:H; cbn [fst]; [|exact CI].
     eapply restore_commit_inv; eauto.
   - unfold restore; cbn [repaired v_validate].
     destruct (restore_repaired c (cp_pool s) mk mb true) as [p'|] eqn:H; cbn [fst]; [|exact CI].
     exact (restore_commit_inv c st s 0 mk mb p' W WS CI H).
+  - exact CI.
 Qed.
 
 Lemma crun_inv c st ops : wf c -> wfst c st -> forall s, CInv c st s -> CInv c st (crun repaired c s ops).
